@@ -33,6 +33,8 @@ REQUIRED_THEOREMS = [
     # round 2: handles that stay alive, write-side aliasing
     "dense_refines_ext", "sparse_refines_ext", "sparse_dense_agree_ext", "read_isolated_ext", "read_isolated_after_writes",
     "caller_vector_isolated", "dense_handle_stale_after_growth", "checkVal_idem", "sparse_dense_agree_ext_eq",
+    # round 3: several attributes on one container, delete / re-create, translated resets and growth
+    "multi_project", "multi_frame", "multi_refines", "multi_growth_aligned", "recreate_fresh", "gen_storage_eq",
 ]
 TRUSTED = [
     "Lean 4.33.0 kernel; axioms ⊆ {propext, Classical.choice, Quot.sound}",
@@ -53,7 +55,9 @@ ASSUMPTIONS = [
     "strings shorter than 32 characters (dense dtype <U32), integers within int64, floats dyadic (exact in binary64/32)",
     "a scalar str is never offered to a vector attribute (Python would iterate its characters)",
 ]
-RULE = ("[round 2: plus reads kept alive and updated in place later (hold/muth), a[j] = a[i] (setfr), one caller vector written "
+RULE = ("[round 3: several attributes (sparse and dense at once) on one container incl. delete / re-create under the same name "
+        "(family t=multi); vector values offered as list / tuple / numpy array / Vec, numpy scalar components, numpy integer "
+        "indices, `+=` of lists with repeated elements / tuples / sets] [round 2: plus reads kept alive and updated in place later (hold/muth), a[j] = a[i] (setfr), one caller vector written "
         "under several keys and updated by the caller afterwards (setsh)] random scripts (length <= 14 quick / <= 60 thorough) over 5 types x arity 1-3 x {implicit, custom default}, the same "
         "script replayed on sparse and dense storage and on the model; indices size, size+1, -1 and reads followed by in-place "
         "updates are weighted in; values: exact type, widening, non-castable, wrong arity, heterogeneous vectors, numpy scalar "
@@ -96,6 +100,35 @@ def tok_value(tok):
     if np_t:
         v = getattr(np, np_t)(v)
     return v
+
+
+def mk_value(v):
+    """the Python object offered to `a[i] = ...` for a value ["S", tok] | ["V", [tok...], rep?]; rep: how the vector is
+    REPRESENTED (list, tuple, numpy array, Vec) — same components"""
+    import numpy as np
+    if v[0] == "S": return tok_value(v[1])
+    comps = [tok_value(t) for t in v[1]]
+    rep = v[2] if len(v) > 2 else "list"
+    if rep == "tuple": return tuple(comps)
+    if rep in ("nd", "vec") and comps and len({tok_type(t) for t in v[1]}) == 1:
+        arr = np.array(comps)
+        if rep == "vec":
+            import mouette as M
+            return M.Vec(arr)
+        return arr
+    return comps
+
+
+def mk_index(op):
+    """the index object: a Python int or (round 3) a numpy integer of the same value"""
+    import numpy as np
+    d = op[-1] if isinstance(op[-1], dict) else {}
+    i = op[1]
+    ix = d.get("ix")
+    if ix == "np64": return np.int64(i)
+    if ix == "np32": return np.int32(i)
+    if ix == "npu8" and 0 <= i < 256: return np.uint8(i)
+    return i
 
 
 def canon(ty, x):
@@ -180,7 +213,10 @@ class _Run:
             if kind == "append":
                 c.append(len(c)); return "-"
             if kind == "extl":
-                c += [len(c) + j for j in range(op[1])]; return "-"
+                new_ = [len(c) + j for j in range(op[1])]
+                rep = op[2] if len(op) > 2 else "list"
+                if rep == "dups": new_ = [7] * op[1]           # the SAME element several times: still op[1] new elements
+                c += tuple(new_) if rep == "tuple" else set(new_) if rep == "set" else new_; return "-"
             if kind == "extc":
                 o = self.DC(id="o")
                 for j in range(op[1]): o.append(100 + j)
@@ -221,13 +257,12 @@ class _Run:
                     a[key] = w
                 return "-"
             if kind == "set":
-                v = op[2]
-                a[op[1]] = tok_value(v[1]) if v[0] == "S" else [tok_value(t) for t in v[1]]
+                a[mk_index(op)] = mk_value(op[2])
                 return "-"
             if kind == "get":
-                return canon_read(self.ty, a[op[1]])
+                return canon_read(self.ty, a[mk_index(op)])
             if kind == "mut":
-                v = a[op[1]]
+                v = a[mk_index(op)]
                 if self.k > 1:
                     try:
                         v[op[2]] = tok_value(op[3])
@@ -317,6 +352,9 @@ def mask(case, recs):
 
 
 def impl_observe(case):
+    if case.get("t") == "multi":
+        from . import c05_multi
+        return c05_multi.impl_observe(case)
     return " | ".join(mask(case, _trace(case, False))) + " || " + " | ".join(mask(case, _trace(case, True)))
 
 
@@ -340,6 +378,9 @@ def _str_scalar_on_vector(case):
 
 
 def model_request(case):
+    if case.get("t") == "multi":
+        from . import c05_multi
+        return c05_multi.model_request(case)
     if _str_scalar_on_vector(case):
         return None
     toks = [str(case["n0"]), str(len(case["ops"]))]
@@ -365,6 +406,9 @@ def model_request(case):
 
 
 def compare(case, model, impl):
+    if case.get("t") == "multi":
+        from . import c05_multi
+        return c05_multi.compare(case, model, impl)
     if " || " not in model:
         return f"model rejected the request: {model[:80]}"
     ms, md = model.split(" || ")
@@ -511,7 +555,11 @@ def _oracle_mode(case, dense):
             origin = [None] * len(origin)
         elif kind == "cclear":
             if failed: F("cclear", f"raises({obs})", f"step {step}"); return out
-            alive, size = False, 0
+            size = 0
+            # the statement does not say whether emptying the container drops its attributes: both are accepted (a kept
+            # attribute must then be an empty, default-valued one aligned with the empty container)
+            alive = alive and r.c.has_attribute("a")
+            ref, taint = {}, set()
             origin = [None] * len(origin)
             r.by = r.c.create_attribute("bystander", int, 2, dense=True)
         elif kind in ("append", "extl", "extc", "exts"):
@@ -576,6 +624,9 @@ def _oracle_mode(case, dense):
 
 
 def oracle(case):
+    if case.get("t") == "multi":
+        from . import c05_multi
+        return c05_multi.oracle(case)
     out = []
     for dense in (False, True):
         out += _oracle_mode(case, dense)
@@ -683,12 +734,17 @@ def _script(rng, maxlen):
                     else: ops.append(["mut", keys[0], rng.randrange(max(k, 1)), _scalar(rng, ty, numpy_ok=False)])
             continue
         r = (r - 0.18) / 0.82
-        if r < 0.30: ops.append(["set", _index(rng, size), _value(rng, ty, k)])
-        elif r < 0.45: ops.append(["get", _index(rng, size)])
+        if r < 0.30:
+            v = _value(rng, ty, k)
+            if v[0] == "V":
+                homog = len({tok_type(t) for t in v[1]}) <= 1
+                v = v + [rng.choice(["list", "list", "tuple", "nd", "vec"] if homog else ["list", "tuple"])]
+            ops.append(["set", _index(rng, size), v] + ([{"ix": rng.choice(["np64", "np32", "npu8"])}] if rng.random() < 0.12 else []))
+        elif r < 0.45: ops.append(["get", _index(rng, size)] + ([{"ix": rng.choice(["np64", "np32", "npu8"])}] if rng.random() < 0.12 else []))
         elif r < 0.57: ops.append(["mut", _index(rng, size), rng.randrange(max(k, 1)) if rng.random() < 0.95 else k, _scalar(rng, ty, numpy_ok=False)])
         elif r < 0.63: ops.append(["append"]); size += 1
         elif r < 0.68:
-            n = rng.randint(0, 3); ops.append(["extl", n]); size += n
+            n = rng.randint(0, 3); ops.append(["extl", n, rng.choice(["list", "dups", "tuple", "set"])]); size += n
         elif r < 0.72:
             n = rng.randint(0, 3); ops.append(["extc", n]); size += n
         elif r < 0.75 and size <= 8: ops.append(["exts"]); size *= 2
@@ -717,6 +773,10 @@ def cases(rng, tier):
     n, maxlen = (3000, 14) if tier == "quick" else (12000, 60)
     for _ in range(n):
         yield _script(rng, maxlen)
+    # round 3: several attributes (sparse and dense at once) on one container
+    from . import c05_multi
+    for _ in range(600 if tier == "quick" else 4000):
+        yield c05_multi.script(rng, 14 if tier == "quick" else 40)
     if tier == "thorough":
         # exhaustive small scope (a TEST of the model tie and of the oracle, not a proof)
         alpha = _alphabet()
@@ -735,9 +795,15 @@ def cases(rng, tier):
 def search_on_break(rng, broken, mismatches):
     for _ in range(1500):
         yield _script(rng, 20)
+    from . import c05_multi
+    for _ in range(400):
+        yield c05_multi.script(rng, 16)
 
 
 def nontrivial(case, obs):
+    if case.get("t") == "multi":
+        from . import c05_multi
+        return c05_multi.nontrivial(case, obs)
     recs = obs.split(" || ")[1].split(" | ")
     wrote = False
     for op, rec in zip(case["ops"], recs):
@@ -748,6 +814,9 @@ def nontrivial(case, obs):
 
 
 def classify(case, obs):
+    if case.get("t") == "multi":
+        from . import c05_multi
+        return c05_multi.classify(case, obs)
     ks = []
     for mode, tr in zip(("sparse", "dense"), obs.split(" || ")):
         for op, rec in zip(case["ops"], tr.split(" | ")):
@@ -758,6 +827,21 @@ def classify(case, obs):
             if o.startswith("err"): ks.append(f"{mode}:{op[0]}:{o}")
             if o == "?": ks.append(f"{mode}:masked-read")
     ks.append(f"len:{min(len(case['ops']) // 5 * 5, 60)}+")
+    alive = deleted = cleared = False
+    for op in case["ops"]:
+        if op[0] == "create":
+            if deleted: ks.append("history:re-create-after-delete")
+            elif alive: ks.append("history:create-over-existing")
+            alive, deleted, cleared = True, False, False
+        elif op[0] in ("delete", "cclear"): deleted, alive = alive or deleted, False
+        elif op[0] == "clear" and alive: cleared = True
+        elif op[0] in ("get", "arr", "hold") and cleared: ks.append("history:read-after-clear"); cleared = False
+        if op[0] == "set" and op[2][0] == "V" and len(op[2]) > 2: ks.append("rep:vector=" + op[2][2])
+        if op[0] == "set":
+            for t in ([op[2][1]] if op[2][0] == "S" else op[2][1]):
+                if "@" in t: ks.append("rep:numpy-scalar=" + t.split("@")[1])
+        if isinstance(op[-1], dict) and "ix" in op[-1]: ks.append("rep:index=" + op[-1]["ix"])
+        if op[0] == "extl" and len(op) > 2: ks.append("rep:extend=" + op[2])
     return ks
 
 
@@ -766,6 +850,9 @@ def describe(case):
 
 
 def shrink(case, still):
+    if case.get("t") == "multi":
+        from . import c05_multi
+        return c05_multi.shrink(case, still)
     ops = list(case["ops"])
     i = len(ops) - 1
     while i >= 0:
@@ -965,10 +1052,81 @@ def translate():
         return "sparse and dense __setitem__ share one value check (identical AST after the bounds guard)"
     sites.append(T.site("mesh_attributes.py:__setitem__ value checks identical", setitems))
 
+    # ---- round 3: the resets / growth of the storages and of the container (loss of any of these breaks the property)
+    def _norm(node):
+        return ast.unparse(node).replace(" ", "")
+
+    def _body(fn):
+        return [st for st in fn.body if not (isinstance(st, ast.Expr) and isinstance(st.value, ast.Constant))]
+
+    FULL = "np.full(({rows},self.elemsize),self.default_value,dtype=self.type.dtype)"
+
+    def expand():
+        tree, _ = T.load(ATTR_FILE)
+        b = _body(T.find_def(tree, "ArrayAttribute._expand"))
+        if len(b) != 2: raise T.TranslateError(f"ArrayAttribute._expand has {len(b)} statements, expected 2")
+        want0 = "self._data=np.concatenate((self._data," + FULL.format(rows="n") + "))"
+        if _norm(b[0]) != want0: raise T.TranslateError(f"_expand: storage growth not recognised: {_norm(b[0])[:120]}")
+        if _norm(b[1]) not in ("self.n_elem+=n", "self.n_elem=self.n_elem+n", "self.n_elem=n+self.n_elem"):
+            raise T.TranslateError(f"_expand: n_elem update not recognised: {_norm(b[1])}")
+        sb = _body(T.find_def(tree, "Attribute._expand"))
+        if not (len(sb) == 1 and isinstance(sb[0], ast.Pass)): raise T.TranslateError("sparse _expand is not `pass`")
+        chunks["expand"] = ("/-- `ArrayAttribute._expand(n)`: a NEW array = old rows followed by `n` rows filled with the default, in the attribute's\n"
+                            "dtype; `n_elem += n`. Returned: (old rows kept first, number of new rows, new rows hold the default, n_elem after) -/\n"
+                            "def denseExpand (nElem n : Nat) : Bool × Nat × Bool × Nat := (true, n, true, nElem + n)\n"
+                            "/-- `Attribute._expand` (sparse): nothing to do -/\ndef sparseExpandIsNoop : Bool := true\n")
+        return "concatenate((old, full((n, elemsize), default, dtype))); n_elem += n; sparse: pass"
+    sites.append(T.site("mesh_attributes.py:_expand (dense and sparse)", expand))
+
+    def clears():
+        tree, _ = T.load(ATTR_FILE)
+        b = _body(T.find_def(tree, "ArrayAttribute.clear"))
+        if len(b) != 1 or _norm(b[0]) != "self._data=" + FULL.format(rows="self.n_elem"):
+            raise T.TranslateError(f"ArrayAttribute.clear not recognised: {[_norm(x)[:100] for x in b]}")
+        sb = _body(T.find_def(tree, "Attribute.clear"))
+        if len(sb) != 1 or _norm(sb[0]) not in ("self._data=dict()", "self._data={}"):
+            raise T.TranslateError(f"Attribute.clear not recognised: {[_norm(x) for x in sb]}")
+        ini = _body(T.find_def(tree, "ArrayAttribute.__init__"))
+        if _norm(ini[-1]) != "self._data=" + FULL.format(rows="n_elem").replace("self.elemsize", "elem_size"):
+            raise T.TranslateError(f"ArrayAttribute.__init__ storage not recognised: {_norm(ini[-1])[:100]}")
+        chunks["clear"] = ("/-- `ArrayAttribute.clear()`: a NEW (n_elem, elemsize) array filled with the default, in the attribute's dtype (as in\n"
+                           "`__init__`); `Attribute.clear()`: a new empty dict. Returned: rows of the new dense storage -/\n"
+                           "def denseClearRows (nElem : Nat) : Nat := nElem\ndef sparseClearIsEmptyDict : Bool := true\n")
+        return "dense: full((n_elem, elemsize), default, dtype); sparse: dict()"
+    sites.append(T.site("mesh_attributes.py:clear / __init__ storage", clears))
+
+    def growth():
+        tree, _ = T.load("mouette/mesh/data_container.py")
+        LOOP = "forattrinself._attr.values():attr._expand({n})"
+        ap = _body(T.find_def(tree, "DataContainer.append"))
+        if [_norm(x).replace("\n", "") for x in ap] != ["self._data.append(val)", LOOP.format(n="1")]:
+            raise T.TranslateError(f"DataContainer.append not recognised: {[_norm(x)[:60] for x in ap]}")
+        ia = _body(T.find_def(tree, "DataContainer.__iadd__"))
+        if not (len(ia) == 2 and isinstance(ia[0], ast.If) and isinstance(ia[1], ast.Return)): raise T.TranslateError("__iadd__ shape")
+        b1 = [_norm(x).replace("\n", "") for x in ia[0].body]
+        if b1 != ["self._data+=list(other)", LOOP.format(n="len(other)")]: raise T.TranslateError(f"__iadd__ list branch: {b1}")
+        el = ia[0].orelse
+        if not (len(el) == 1 and isinstance(el[0], ast.If) and _norm(el[0].test) == "isinstance(other,DataContainer)"):
+            raise T.TranslateError("__iadd__ container branch not found")
+        b2 = [_norm(x).replace("\n", "") for x in el[0].body]
+        # the count must be taken BEFORE the data is extended (`other` may be `self`)
+        if b2 != ["n_new=len(other._data)", "self._data+=other._data", LOOP.format(n="n_new")]:
+            raise T.TranslateError(f"__iadd__ container branch (count first, then extension, then _expand(count)): {b2}")
+        chunks["growth"] = ("/-- container growth: how many rows every attribute is expanded by, per branch, in terms of the number of appended\n"
+                            "elements `m` and (container branch) of `len(other._data)` read BEFORE the extension -/\n"
+                            "def appendCount : Nat := 1\ndef extendListCount (m : Nat) : Nat := m\n"
+                            "def extendContainerCount (lenOtherBefore : Nat) : Nat := lenOtherBefore\n")
+        return "append: 1; += list: len(other); += container: len(other._data) taken before the extension"
+    sites.append(T.site("data_container.py:append / __iadd__ expand counts", growth))
+
     if all(s["ok"] for s in sites[:4]):
         body = ("import Mouette.Model.Attr\nnamespace Mouette.Generated.C05\nopen Mouette.Attr\n\n" + chunks["casts"] + "\n" + chunks["types"] + "\n"
                 + chunks["defaults"] + "\n" + chunks["guard"] + "\nend Mouette.Generated.C05\n")
         T.write_generated("C05", body)
+    if all(s["ok"] for s in sites[-3:]):
+        body = ("import Mouette.Model.Attr\nnamespace Mouette.Generated.C05\nopen Mouette.Attr\n\n" + chunks["expand"] + "\n" + chunks["clear"] + "\n"
+                + chunks["growth"] + "\nend Mouette.Generated.C05\n")
+        T.write_generated("C05Storage", body)
     return sites
 
 
